@@ -327,6 +327,9 @@ func newBigArr(elem types.Type, n *Term, symName string) *BigArrV {
 	return b
 }
 
+// pendingAssumes: range constraints of symbolic lengths created by symValue, added by the caller.
+var pendingAssumes []*Term
+
 type unsupportedErr struct {
 	msg     string
 	checked bool // an inner branch already showed that its path condition is feasible
@@ -396,14 +399,28 @@ func zeroValue(t types.Type) Value {
 	panic(unsupported("zero of " + t.String()))
 }
 
+// heapAlloc, when set, lets symValue build symbolic slices (bounded length) on the heap.
+var heapAlloc func(v Value) *Loc
+
+const havocStrMax = 3
+const havocSliceMax = 2
+
 // symValue builds a fully symbolic value of a pointer-free type; leaves are
-// named name + path so that native replay can fill the same fields.
+// named name + path so that native replay can fill the same fields. Strings
+// are symbolic with at most havocStrMax bytes, slices have at most
+// havocSliceMax elements (stated bounds).
 func symValue(t types.Type, name string) Value {
 	switch u := t.Underlying().(type) {
 	case *types.Basic:
 		w := scalarWidth(t)
 		if isString(t) {
-			panic(unsupported("symbolic string via havoc: " + name))
+			sv := &StrV{B: make([]*Term, havocStrMax), Len: InputVar(name+".len", 64)}
+			for i := range sv.B {
+				sv.B[i] = InputVar(fmt.Sprintf("%s[%d]", name, i), 8)
+			}
+			varBounds[name+".len"] = havocStrMax
+			pendingAssumes = append(pendingAssumes, Ule(sv.Len, BVu(havocStrMax, 64)))
+			return sv
 		}
 		if w == 0 {
 			return InputBool(name)
@@ -416,13 +433,14 @@ func symValue(t types.Type, name string) Value {
 		for i := range fs {
 			ft := u.Field(i).Type()
 			switch ft.Underlying().(type) {
-			case *types.Pointer, *types.Slice, *types.Map, *types.Interface, *types.Signature, *types.Chan:
+			case *types.Pointer, *types.Map, *types.Interface, *types.Signature, *types.Chan:
 				fs[i] = zeroValue(ft)
 				continue
-			}
-			if isString(ft) {
-				fs[i] = zeroValue(ft)
-				continue
+			case *types.Slice:
+				if heapAlloc == nil {
+					fs[i] = zeroValue(ft)
+					continue
+				}
 			}
 			if n, ok := ft.(*types.Named); ok && n.Obj().Pkg() != nil && n.Obj().Pkg().Path() == "sync" {
 				fs[i] = zeroValue(ft)
@@ -431,6 +449,19 @@ func symValue(t types.Type, name string) Value {
 			fs[i] = symValue(ft, name+"."+u.Field(i).Name())
 		}
 		return &StructV{F: fs}
+	case *types.Slice:
+		if heapAlloc == nil {
+			return zeroValue(t)
+		}
+		es := make([]Value, havocSliceMax)
+		for i := range es {
+			es[i] = symValue(u.Elem(), fmt.Sprintf("%s[%d]", name, i))
+		}
+		l := heapAlloc(&ArrayV{E: es, T: u.Elem()})
+		ln := InputVar(name+".len", 64)
+		varBounds[name+".len"] = havocSliceMax
+		pendingAssumes = append(pendingAssumes, Ule(ln, BVu(havocSliceMax, 64)))
+		return singleSlice(l, BVu(0, 64), ln, ln)
 	case *types.Array:
 		n := int(u.Len())
 		if n >= bigArrThreshold {
